@@ -253,7 +253,7 @@ def _mat_zero(dims, log):
 
 
 # --------------------------------------------------------------------------- Fex
-def run_fex(project, tdir, rates="havoc", dual=False, nsystem=1, with_physics=False, data_overrides=None):
+def run_fex(project, tdir, rates="havoc", dual=False, nsystem=1, with_physics=False, data_overrides=None, second_call=False):
     """returns Run with .ydot (list len NEQ of terms or None), .y, .k, .kh, .kc, .data"""
     t0 = time.time()
     kind = KIND[tdir]
@@ -314,6 +314,20 @@ def run_fex(project, tdir, rates="havoc", dual=False, nsystem=1, with_physics=Fa
         out = "ydot.data"
     else:
         raise Inconclusive(kind)
+    if second_call:
+        # the integrator calls the right-hand side many times: a second evaluation, in the state the first one left
+        # (function-local statics, globals), with *other* abundances and a derivative buffer holding the old values
+        cells = st.cells(out)
+        run.first_ydot = [cells.get(8 * i) for i in range(NEQ * nsystem)]
+        run.y2 = H.real_vec("ysecond", NEQ * nsystem)
+        ybuf = "abund.data" if kind == "odeint" else "y.data"
+        for i, v in enumerate(run.y2):
+            st.store(ybuf, 8 * i, v)
+        for i in range(NEQ * nsystem):
+            st.store(out, 8 * i, z3.Real(f"stale_ydot_{i}"))
+        args = {"dense": lambda: [z3.Real("t"), Ptr("u", 0), Ptr("udot", 0), ud], "sparse": lambda: [z3.Real("t"), Ptr("u", 0), Ptr("udot", 0), ud],
+                "odeint": lambda: [Ptr("fexobj", 0), Ptr("abund", 0), Ptr("ydotv", 0), z3.Real("t")], "cusparse": lambda: [Ptr("y.data", 0), Ptr("ydot.data", 0), ud, nsystem]}[kind]()
+        _, ret = M.run_function(fn, st, args)
     cells = st.cells(out)
     run.ydot = [cells.get(8 * i) for i in range(NEQ * nsystem)]
     run.ret = ret
